@@ -31,33 +31,33 @@ type Cex struct {
 }
 
 type Result struct {
-	Harness      string             `json:"harness"`
-	Paths        int                `json:"paths"`
-	PathEnds     map[string]int     `json:"path_ends"`
-	Obligations  map[string]*ObStat `json:"obligations"`
-	AutoObs      map[string]*ObStat `json:"auto_obligations"`
-	Cex          []Cex              `json:"counterexamples"`
-	Unsupported  []string           `json:"unsupported"`
-	Reached      map[string]int     `json:"reached"`
-	Notes        map[string]int     `json:"notes"`
-	Funcs        map[string]int     `json:"functions_encoded"`
-	Vars         []string           `json:"input_vars"`
-	FeasQueries  int                `json:"feasibility_queries"`
-	UnknownFeas  int                `json:"unknown_feasibility"`
-	Merges       int                `json:"merged_diamonds"`
-	Steps        int                `json:"ssa_steps"`
-	MaxAllocs    []string           `json:"largest_allocations,omitempty"`
-	KernelCalls  []string           `json:"kernel_calls,omitempty"`
-	TasksChecked int                `json:"tasks_checked"`
-	Solver       solver.Stats       `json:"solver"`
-	WallS        float64            `json:"wall_s"`
-	Truncated    bool               `json:"truncated"`
-	Samples      []string           `json:"sample_obligations"`
-	ExitCodes    map[string]int     `json:"exit_codes,omitempty"`
+	Harness      string              `json:"harness"`
+	Paths        int                 `json:"paths"`
+	PathEnds     map[string]int      `json:"path_ends"`
+	Obligations  map[string]*ObStat  `json:"obligations"`
+	AutoObs      map[string]*ObStat  `json:"auto_obligations"`
+	Cex          []Cex               `json:"counterexamples"`
+	Unsupported  []string            `json:"unsupported"`
+	Reached      map[string]int      `json:"reached"`
+	Notes        map[string]int      `json:"notes"`
+	Funcs        map[string]int      `json:"functions_encoded"`
+	Vars         []string            `json:"input_vars"`
+	FeasQueries  int                 `json:"feasibility_queries"`
+	UnknownFeas  int                 `json:"unknown_feasibility"`
+	Merges       int                 `json:"merged_diamonds"`
+	Steps        int                 `json:"ssa_steps"`
+	MaxAllocs    []string            `json:"largest_allocations,omitempty"`
+	KernelCalls  []string            `json:"kernel_calls,omitempty"`
+	TasksChecked int                 `json:"tasks_checked"`
+	Solver       solver.Stats        `json:"solver"`
+	WallS        float64             `json:"wall_s"`
+	Truncated    bool                `json:"truncated"`
+	Samples      []string            `json:"sample_obligations"`
+	ExitCodes    map[string]int      `json:"exit_codes,omitempty"`
 	Witnesses    []map[string]uint64 `json:"witness_inputs,omitempty"`
-	CrossUnsat   int                `json:"normal_form_crosscheck_unsat"`
-	CrossUnknown int                `json:"normal_form_crosscheck_timeout"`
-	CrossSat     int                `json:"normal_form_crosscheck_disagree"`
+	CrossUnsat   int                 `json:"normal_form_crosscheck_unsat"`
+	CrossUnknown int                 `json:"normal_form_crosscheck_timeout"`
+	CrossSat     int                 `json:"normal_form_crosscheck_disagree"`
 
 	varSeen  map[string]bool
 	vars     []*term.T
@@ -365,6 +365,7 @@ func (e *Engine) runPath(fn *ssa.Function, prefix []uint64, base Options) {
 	e.dirs = nil
 	e.files = nil
 	e.gomaxprocs = nil
+	e.tableLoop = nil
 	e.absKernel = nil
 	e.res.Paths++
 	end := "completed"
